@@ -319,7 +319,13 @@ func (c *FnCtx) runGhostAt(bc *blockCtx, a Anchor) {
 	}
 }
 
-func (c *FnCtx) bindCallVars(env *Env, bc *blockCtx) {}
+// bindCallVars makes the results of the call at an `after call` anchor
+// available to ghost code as $r0, $r1, ...
+func (c *FnCtx) bindCallVars(env *Env, bc *blockCtx) {
+	for i, v := range c.callRes {
+		env.vars[fmt.Sprintf("$r%d", i)] = v
+	}
+}
 
 func anchorString(a Anchor) string {
 	switch a.Kind {
@@ -371,6 +377,7 @@ func (c *FnCtx) runGhostAtState(fr *Frame, st *State, a Anchor) {
 			continue
 		}
 		env := c.newEnv(fr, st, c.top.entrySt)
+		c.bindCallVars(env, nil)
 		v, err := env.evalVal(g.RHS)
 		if err != nil {
 			c.contractStale("ghost-at", g.Pos, err, nil)
@@ -637,8 +644,11 @@ func (c *FnCtx) havocTargets(st *State, ts []modTarget) {
 				}
 			}
 		case "chan":
-			c.heapStore(st, "CH:closed", arrSort("Bool"), t.ref, c.sc.fresh("mod.closed", "Bool"))
-			c.heapStore(st, "CH:waited", arrSort("Bool"), t.ref, c.sc.fresh("mod.waited", "Bool"))
+			// a nil channel has no state: chan(nil) modifies nothing
+			for _, nm := range []string{"CH:closed", "CH:waited"} {
+				a := c.heapGet(st, nm, arrSort("Bool"))
+				c.heapStore(st, nm, arrSort("Bool"), t.ref, sIte("(= "+t.ref+" 0)", "(select "+a+" 0)", c.sc.fresh("mod."+nm, "Bool")))
+			}
 		}
 	}
 }
@@ -833,7 +843,7 @@ func (c *FnCtx) applyContract(bc *blockCtx, spec *FuncSpec, cc *ssa.CallCommon, 
 	}
 	pre := bc.st.clone()
 	mkEnv := func(st *State) *Env {
-		env := &Env{c: c, st: st, old: pre, vars: map[string]Val{}, pkg: pkg}
+		env := &Env{c: c, st: st, old: pre, vars: map[string]Val{}, pkg: pkg, macros: spec.Macros}
 		for i, n := range fnames {
 			if i < len(args) && n != "_" {
 				env.vars[n] = args[i]
@@ -961,7 +971,13 @@ func (c *FnCtx) applyContract(bc *blockCtx, spec *FuncSpec, cc *ssa.CallCommon, 
 	}
 	c.ghostEvent(bc, "call:"+short)
 	if bc.fr == c.top {
+		if res.K == KTuple {
+			c.callRes = res.Fs
+		} else if res.K != KUnit {
+			c.callRes = []Val{res}
+		}
 		c.runGhostAt(bc, Anchor{Kind: "after", Callee: short, Occ: occ})
+		c.callRes = nil
 	}
 	return res
 }
